@@ -90,12 +90,22 @@ def rule_hasher_init(ctx, f, b, rid, key):
     n = 0
     for hi, h in enumerate(hasher_events(b)):
         n += 1
-        ctx.ob(rid, "%s|hasher%d|initial-state" % (key, hi), _std_init(f, h, 0),
+        ctx.ob(rid, "%s|hasher%d|initial-state" % (key, hi), _std_init(f, h, 0, b),
                "the hasher must start as FnvHasher::default() (the FNV-1a offset basis); found %s" % show(h)[:160], site=b.raw["span"]["at"])
     return n
 
 
-def _std_init(f, h, depth):
+def _std_init(f, h, depth, b=None):
+    if isinstance(h, tuple) and len(h) == 2 and h[0] == "var" and b is not None and depth < 3:
+        # an accumulator threaded through a fold: it starts from the standard hasher and is otherwise only handed on
+        alts = b.var_alts(h[1])
+
+        def payload(a):
+            return a[3][0] if (isinstance(a, tuple) and a and a[0] == "agg" and a[2].endswith("Result::Ok") and a[3]) else a
+        good = [a for a in alts if _std_init(f, peel(payload(a)), depth + 1, b)]
+        carried = [a for a in alts if a not in good and (peel(payload(a)) == h or is_call(peel(a, transparent=[]), "FromResidual::from_residual")
+                                                         or (isinstance(peel(payload(a)), tuple) and peel(payload(a))[0] == "var" and _std_init(f, peel(payload(a)), depth + 1, b)))]
+        return bool(good) and len(good) + len(carried) == len(alts)
     if not (isinstance(h, tuple) and h and h[0] == "call"):
         return False
     name = strip_generics(h[1])
@@ -106,5 +116,5 @@ def _std_init(f, h, depth):
     if depth < 2 and not h[2]:
         hb = f.body(h[1]) or f.body(name)
         if hb is not None:
-            return _std_init(f, peel(hb.term_local(0)), depth + 1)
+            return _std_init(f, peel(hb.term_local(0)), depth + 1, hb)
     return False
